@@ -3,7 +3,7 @@
    several clients sharing one world.  Still parametric in C10 (NodeAt, tile_ok and their
    soundness) and in the domain guard on signed tree sizes; see SeqProofsSafe.v. *)
 From Verif.Base Require Import Bytes.
-From Verif.Tlog Require Import Index Tree Codec Tile TileReader.
+From Verif.Tlog Require Import Index Tree Codec Tile TileReader ProofsIndex.
 From Verif.Note Require Import Note.
 From Verif.Client Require Import Seq SeqProofsTile SeqProofsSafe.
 
@@ -21,17 +21,17 @@ Hypothesis tiles_sound : forall N R h ix rt hs ts ds,
   1 <= h <= 30 -> 0 <= N < 2 ^ 62 ->
   tile_read_hashes node_hash (N, R) h ix rt = (TOk hs, Some (ts, ds)) ->
   Forall2 (node_auth NodeAt R N) ix hs /\ Forall2 (tile_ok R N) ts ds.
-Hypothesis saved_implies_ok : forall N R h ix rt r sv,
+Hypothesis saved_authenticated : forall N R h ix rt r ts ds,
   1 <= h <= 30 -> 0 <= N < 2 ^ 62 ->
-  tile_read_hashes node_hash (N, R) h ix rt = (r, Some sv) -> exists hs, r = TOk hs.
+  tile_read_hashes node_hash (N, R) h ix rt = (r, Some (ts, ds)) -> Forall2 (tile_ok R N) ts ds.
 
 Variable vs : verifiers str.
 Variable name : str.
 Hypothesis signed_small : forall msg t, signed_tree V vs msg t -> Codec.tN t < 2 ^ 62.
 
 Notation lookup := (Seq.lookup sha leaf_hash node_hash V esc_path esc_vers skip).
-Notation ClientInv := (ClientInv leaf_hash node_hash V NodeAt vs name).
-Notation CInv := (CInv leaf_hash node_hash V NodeAt vs name).
+Notation ClientInv := (ClientInv leaf_hash V NodeAt vs name).
+Notation CInv := (CInv leaf_hash V NodeAt vs name).
 Notation key_ok := (key_ok sha vs name).
 Notation ev_safe := (ev_safe leaf_hash node_hash V NodeAt tile_ok vs name).
 Notation auth_record := (auth_record leaf_hash V NodeAt vs).
@@ -45,19 +45,73 @@ Theorem lookup_spec w c path vers r evs w' c' :
   (forall lines, r = LOk lines -> exists d, auth_record d /\ lines = result_lines path vers d) /\
   (r = LErr ESecurity ->
      Exists is_sec evs \/ c_init c = Some (Some ESecurity) \/ exists f, In (f, RErr ESecurity) (c_records c)) /\
-  r <> LErr EFuelC.
+  r <> LErr EFuelC /\
+  (sec_memo c' -> sec_memo c \/ Exists is_sec evs).
 Proof.
   intros HC Hk H. unfold Seq.lookup in H.
   destruct (lookup_m sha leaf_hash node_hash V esc_path esc_vers skip path vers (mkState w c []))
     as [r0 s'] eqn:E.
   inversion H; subst r0 evs w' c'; clear H.
   eapply lookup_m_spec in E; eauto.
-  destruct E as (HC' & (evs & Htr & Hall) & (_ & Hkey) & Hok & Hsec & Hnf). cbn in Htr.
+  destruct E as (HC' & (evs & Htr & Hall) & (_ & Hkey) & Hok & Hsec & Hnf & Hmemo). cbn in Htr.
   split; [exact HC'|]. split; [rewrite Htr; exact Hall|]. split; [exact Hkey|].
   split; [intros lines Hr; destruct (Hok lines Hr) as (_ & d & ? & ?); eauto|].
-  split; [|exact Hnf].
-  intros Hr. destruct (Hsec Hr) as [(evs' & Htr' & Hex)|Hm]; [|right; exact Hm].
-  left. cbn in Htr'. rewrite Htr'. exact Hex.
+  split; [|split; [exact Hnf|]].
+  - intros Hr. destruct (Hsec Hr) as [(evs' & Htr' & Hex)|Hm]; [|right; exact Hm].
+    left. cbn in Htr'. rewrite Htr'. exact Hex.
+  - intros Hm. destruct (Hmemo Hm) as [Ho|(evs' & Htr' & Hex)]; [left; exact Ho|].
+    right. cbn in Htr'. rewrite Htr'. exact Hex.
+Qed.
+
+(* C01 lookup_safe: an Ok result is exactly the go.sum lines of a response whose record is
+   authenticated, at the index of its id, against a tree that opens under the configured verifiers *)
+Theorem lookup_safe w c path vers lines evs w' c' :
+  ClientInv c -> (c_init c = None -> key_ok w) ->
+  lookup w c path vers = (LOk lines, evs, w', c') ->
+  exists data id text rest tmsg t,
+    lines = result_lines path vers data /\
+    parse_record data = Index.Ok (id, text, rest) /\
+    signed_tree V vs tmsg t /\ (id < Codec.tN t /\ 0 < Codec.tN t) /\
+    node_auth NodeAt (Codec.tH t) (Codec.tN t) (stored_hash_index 0 id) (leaf_hash text).
+Proof.
+  intros HC Hk H. eapply lookup_spec in H as (_ & _ & _ & Hok & _); eauto.
+  destruct (Hok _ eq_refl) as (d & (id & text & rest & tmsg & t & Hp & Hs & Hlt & Ha) & ->).
+  exists d, id, text, rest, tmsg, t. auto.
+Qed.
+
+(* the explicit Merkle path: given that a NodeAt fact at level 0 yields a proof CheckRecord accepts *)
+Hypothesis nodeat_record_path : forall R N id x,
+  0 <= id < N -> N < 2 ^ 62 -> NodeAt R N 0 id x -> exists p, check_record node_hash p N R id x = Index.Ok tt.
+
+Lemma stored_hash_index_0_neg id : id <= 0 -> stored_hash_index 0 id = stored_hash_index 0 0.
+Proof.
+  intros H. unfold stored_hash_index, level_up. cbn [Z.iter].
+  destruct id; cbn; try reflexivity. lia.
+Qed.
+
+(* a response with a negative id is checked as record 0 (StoredHashIndex(0, id) = 0 for id <= 0) *)
+Theorem lookup_safe_path w c path vers lines evs w' c' :
+  ClientInv c -> (c_init c = None -> key_ok w) ->
+  lookup w c path vers = (LOk lines, evs, w', c') ->
+  exists data id text rest tmsg t p,
+    lines = result_lines path vers data /\
+    parse_record data = Index.Ok (id, text, rest) /\
+    signed_tree V vs tmsg t /\ Z.max id 0 < Codec.tN t /\
+    check_record node_hash p (Codec.tN t) (Codec.tH t) (Z.max id 0) (leaf_hash text) = Index.Ok tt.
+Proof.
+  intros HC Hk H. destruct (lookup_safe _ _ _ _ _ _ _ _ HC Hk H)
+    as (d & id & text & rest & tmsg & t & Hl & Hp & Hs & [Hlt Hpos] & (l & o & Hsplit & Hnode)).
+  assert (Hr := signed_range V vs signed_small _ _ Hs).
+  assert (Hmax : 0 <= Z.max id 0 < Codec.tN t) by lia.
+  assert (Hidx : stored_hash_index 0 id = stored_hash_index 0 (Z.max id 0)).
+  { destruct (Z.max_spec id 0) as [[? ->]|[? ->]]; [|reflexivity]. apply stored_hash_index_0_neg. lia. }
+  rewrite Hidx in Hsplit.
+  assert (Hb : stored_hash_index 0 (Z.max id 0) < 2 ^ 63).
+  { rewrite stored_hash_index_first by lia. rewrite level_up_0.
+    pose proof (first_index_le_double (Z.max id 0) ltac:(lia)). lia. }
+  rewrite (split_index 0 (Z.max id 0)) in Hsplit by lia. injection Hsplit as <- <-.
+  destruct (nodeat_record_path _ _ _ _ Hmax ltac:(lia) Hnode) as (p & Hp').
+  exists d, id, text, rest, tmsg, t, p. repeat (split; [assumption|]). split; [lia | exact Hp'].
 Qed.
 
 (* ---- histories: several clients over one shared world ------------------------------------------ *)
@@ -103,8 +157,83 @@ Proof.
     + eapply key_ok_preserved; eauto.
 Qed.
 
-(* every security error returned along a history from fresh clients was reported through the callback *)
-Definition sec_memo (c : client) : Prop :=
-  c_init c = Some (Some ESecurity) \/ exists f, In (f, RErr ESecurity) (c_records c).
+(* C13 config_monotone_chain: along any history every WriteConfig (successful or not) writes a
+   head signed under the configured key over a stored head that is empty or signed, strictly
+   smaller and on the same timeline *)
+Theorem config_monotone_chain steps w cs rs evs w' cs' f old new ok :
+  (forall i, ClientInv (cs i)) -> key_ok w ->
+  run steps w cs = (rs, evs, w', cs') ->
+  In (EvWriteConfig f old new ok) evs ->
+  f = latest_file name /\
+  exists tnew, signed_tree V vs new tnew /\
+    (old = [] \/ exists told, signed_tree V vs old told /\ Codec.tN told < Codec.tN tnew /\
+                              Consistent node_hash NodeAt told tnew).
+Proof.
+  intros Hinv Hk Hrun Hin. eapply run_safe in Hrun as (_ & _ & Hall); eauto.
+  rewrite Forall_forall in Hall. apply Hall in Hin. exact Hin.
+Qed.
+
+(* C01 writes_authenticated along histories *)
+Theorem writes_authenticated steps w cs rs evs w' cs' f d :
+  (forall i, ClientInv (cs i)) -> key_ok w ->
+  run steps w cs = (rs, evs, w', cs') ->
+  In (EvWriteCache f d) evs ->
+  (exists t tmsg tr, f = tile_cache_key name t /\ signed_tree V vs tmsg tr /\
+                     tile_ok (Codec.tH tr) (Codec.tN tr) t d) \/
+  ((exists ep ev, f = name ++ B "/lookup/" ++ ep ++ [64] ++ ev) /\ auth_record d).
+Proof.
+  intros Hinv Hk Hrun Hin. eapply run_safe in Hrun as (_ & _ & Hall); eauto.
+  rewrite Forall_forall in Hall. apply Hall in Hin. exact Hin.
+Qed.
+
+(* C13 fork_reports_both_heads: every security report names two notes, each the empty timeline or
+   signed under the configured key, and contains both (indented as checkTrees prints them) *)
+Theorem security_report_shape steps w cs rs evs w' cs' msg :
+  (forall i, ClientInv (cs i)) -> key_ok w ->
+  run steps w cs = (rs, evs, w', cs') ->
+  In (EvSecurity msg) evs ->
+  exists older newer,
+    note_ok V vs older /\ note_ok V vs newer /\
+    infix (indent older) msg /\ infix (indent newer) msg.
+Proof.
+  intros Hinv Hk Hrun Hin. eapply run_safe in Hrun as (_ & _ & Hall); eauto.
+  rewrite Forall_forall in Hall. apply Hall in Hin.
+  destruct Hin as (older & newer & h & p & -> & Ho & Hn).
+  exists older, newer. split; [exact Ho|]. split; [exact Hn|]. apply security_msg_contains.
+Qed.
+
+(* ... and whenever a lookup of a history that started with clients holding no memoised security
+   error returns ErrSecurity, such a report is in the trace *)
+Theorem security_error_reported : forall steps w cs rs evs w' cs',
+  (forall i, ClientInv (cs i)) -> key_ok w -> (forall i, ~ sec_memo (cs i)) ->
+  run steps w cs = (rs, evs, w', cs') ->
+  In (LErr ESecurity) rs -> Exists is_sec evs.
+Proof.
+  assert (Hgen : forall steps w cs rs evs w' cs',
+    (forall i, ClientInv (cs i)) -> key_ok w ->
+    run steps w cs = (rs, evs, w', cs') ->
+    In (LErr ESecurity) rs -> Exists is_sec evs \/ exists i, sec_memo (cs i)).
+  { induction steps as [|[[i path] vers] rest IH]; intros w cs rs evs w' cs' Hinv Hk H Hin; cbn in H.
+    - inversion H; subst. destruct Hin.
+    - destruct (lookup w (cs i) path vers) as [[[r evs1] w1] c1] eqn:E1.
+      destruct (run rest w1 (upd cs i c1)) as [[[rs2 evs2] w2] cs2] eqn:E2.
+      inversion H; subst; clear H.
+      eapply lookup_spec in E1 as (HC1 & Hev1 & Hkey1 & _ & Hsec1 & _ & Hmemo1); eauto.
+      destruct Hin as [->|Hin].
+      + destruct (Hsec1 eq_refl) as [Hex|Hm].
+        * left. apply Exists_app. left. exact Hex.
+        * right. exists i. exact Hm.
+      + eapply IH in E2; eauto.
+        * destruct E2 as [Hex|(j & Hm)]; [left; apply Exists_app; right; exact Hex|].
+          unfold upd in Hm. destruct (Nat.eqb j i) eqn:Eji.
+          -- destruct (Hmemo1 Hm) as [Ho|Hex]; [right; exists i; exact Ho|].
+             left. apply Exists_app. left. exact Hex.
+          -- right. exists j. exact Hm.
+        * intros j. unfold upd. destruct (Nat.eqb j i); auto.
+        * eapply key_ok_preserved; eauto. }
+  intros steps w cs rs evs w' cs' Hinv Hk Hnom Hrun Hin.
+  destruct (Hgen _ _ _ _ _ _ _ Hinv Hk Hrun Hin) as [H|(i & Hm)]; [exact H|].
+  exfalso. eapply Hnom; eauto.
+Qed.
 
 End Top.
